@@ -1,5 +1,5 @@
 """Generic driver for the nine schemes: configuration grids, validity domain, case runner, EDB walker."""
-import copy, json, math, pickle, itertools
+import os, copy, json, math, pickle, itertools
 from mc import domains
 
 SCHEMES = ['CJJ14.PiBas', 'CJJ14.PiPack', 'CJJ14.PiPtr', 'CJJ14.Pi2Lev', 'CT14.Pi', 'ANSS16.Scheme3', 'DP17.Pi',
@@ -50,6 +50,36 @@ def key_dep(name, lam):
     if name == 'DP17.Pi':
         return dict(param_lambda=lam)
     return dict(param_k=lam)
+
+
+def covering_rows(axes):
+    """deterministic greedy covering array of strength 2 over the non-base values of the axes; a row is a list of (axis, value index)"""
+    names = list(axes)
+    todo = set()
+    for a, b in itertools.combinations(names, 2):
+        for i in range(len(axes[a])):
+            for j in range(len(axes[b])):
+                todo.add(((a, i), (b, j)))
+    rows = []
+    while todo:
+        # start from the first uncovered pair, then extend axis by axis with the value that covers most uncovered pairs
+        first = min(todo, key=lambda pr: (names.index(pr[0][0]), pr[0][1], names.index(pr[1][0]), pr[1][1]))
+        row = dict([first[0], first[1]])
+        for ax in names:
+            if ax in row:
+                continue
+            best, bestn = 0, -1
+            for k in range(len(axes[ax])):
+                n = sum(1 for a2, k2 in row.items()
+                        if ((a2, k2), (ax, k)) in todo or ((ax, k), (a2, k2)) in todo)
+                if n > bestn:
+                    best, bestn = k, n
+            row[ax] = best
+        ordered = [(ax, row[ax]) for ax in names]
+        for x, y in itertools.combinations(ordered, 2):
+            todo.discard((x, y))
+        rows.append(ordered)
+    return rows
 
 
 def grid(name, tier):
@@ -116,6 +146,14 @@ def grid(name, tier):
         for i, va in enumerate(axes['L']):
             for j, vb in enumerate(axes['ratio']):
                 add('L%d+ratio%d' % (i, j), base_cfg(name, **dict(va, **vb)))
+    if tier != 'thorough' and os.environ.get('VERIF_NO_COVERING') != '1':
+        # strength-2 covering rows: every pair of departures on two different axes occurs together in at least one row (the rows depart
+        # on all axes at once, so they also reach combinations of three and more that the pairwise products of the thorough tier do not)
+        for i, row in enumerate(covering_rows(axes)):
+            over = {}
+            for ax, k in row:
+                over.update(axes[ax][k])
+            add('ca%d[%s]' % (i, '+'.join('%s%d' % (ax, k) for ax, k in row)), base_cfg(name, **over))
     if tier == 'thorough':
         names = list(axes)
         for a, b in itertools.combinations(names, 2):
